@@ -53,7 +53,7 @@ func parse(b []byte) bool {
 			continue
 		}
 		if bytes.HasPrefix(state, []byte("running")) || bytes.HasPrefix(state, []byte("runnable")) || bytes.HasPrefix(state, []byte("syscall")) ||
-			bytes.HasPrefix(state, []byte("preempted")) || bytes.HasPrefix(state, []byte("copystack")) {
+			bytes.HasPrefix(state, []byte("preempted")) || bytes.HasPrefix(state, []byte("copystack")) || bytes.HasPrefix(state, []byte("GC assist")) {
 			return false
 		}
 	}
